@@ -94,6 +94,8 @@ CONFIG = {
                       "The model is tied to attester.go by executing both on the same histories, comparing outcomes and full map snapshots.",
         "level_note": "Trusted: Lean kernel, standard axioms, harness. Client/index/anonymous IDs are abstracted to opaque names; the hex-string keys "
                       "of the Go maps are mapped to ordinals by the harness (injective on the generated worlds).",
+        "extractors": [{"name": "skeleton", "out": "Skeletons.lean"}],
+        "extra_modules": ["PatVerif.Proofs.SkelAttesterIndex"],
         "trusted_base": COMMON_TB,
         "assumptions": ["hex encoding of keys is injective (Go maps keyed by hex strings behave as maps keyed by the byte strings)"],
         "contradicts": "PatVerif.Props.C09 (refines, outcome_spec, functional, repeat_accepted, unbound_accepted, unknown_refused, reject_preserves)",
@@ -113,6 +115,8 @@ CONFIG = {
         "level_note": "Trusted: Lean kernel, standard axioms, harness. The per-type issuers' Evaluate is an oracle parameter (CfgSized: a successful "
                       "evaluation returns 145 resp. 256 bytes — validated on every run); token validity of a finalized entry is C01/C02's subject "
                       "and is checked here on the implementation only (`finalizes` is not a theorem of this file).",
+        "extractors": [{"name": "skeleton", "out": "Skeletons.lean"}],
+        "extra_modules": ["PatVerif.Proofs.SkelBatch"],
         "trusted_base": COMMON_TB + ["per-type Evaluate as oracle (CfgSized hypothesis)"],
         "assumptions": ["CfgSized", "batch responses shorter than 2^62 bytes"],
         "contradicts": "PatVerif.Props.C05 (decode_batch, present_iff, isolation, evalOne_distinct)",
@@ -129,6 +133,8 @@ CONFIG = {
                       "verification, SHA-384, XMD hash-to-field blinding), so model and Go code are compared on verdict and cache effect with no oracle.",
         "level_note": "Trusted: Lean kernel, standard axioms, harness. The Exec references are validated against Go's standard library; the abstract "
                       "theorems do not depend on them. Cryptographic unforgeability is not claimed.",
+        "extractors": [{"name": "skeleton", "out": "Skeletons.lean"}],
+        "extra_modules": ["PatVerif.Proofs.SkelAttesterVerify"],
         "trusted_base": COMMON_TB + ["PatVerif/Exec references (validated differentially, not proved)"],
         "assumptions": [],
         "contradicts": "PatVerif.Props.C06 (accept_iff, reject_no_state, accept_state)",
@@ -145,6 +151,8 @@ CONFIG = {
                       "the blinded key is recomputed by the Lean P-384/XMD reference.",
         "level_note": "Tamper rejection is a theorem of the symbolic model only (ideal AEAD and signature relative to one honest request); on the real "
                       "primitives it is observed per bit, not proved. HPKE and blind RSA are oracle parameters; response bytes are compared by length.",
+        "extractors": [{"name": "skeleton", "out": "Skeletons.lean"}],
+        "extra_modules": ["PatVerif.Proofs.SkelIssuer3"],
         "trusted_base": COMMON_TB + ["go-hpke and circl blindrsa as oracles", "PatVerif/Exec references"],
         "assumptions": ["idealised AEAD/ECDSA hypotheses of only_honest_accepted"],
         "contradicts": "PatVerif.Props.C07 (respond_only_if, only_honest_accepted)",
@@ -158,9 +166,10 @@ CONFIG = {
                       "(P-384, XMD-SHA-384 hash-to-field, HKDF-SHA-384) computes the ID from client key and index key alone and must equal what the "
                       "Go attester returns after real flows with fresh randomness.",
         "level_note": "Trusted: Lean kernel, standard axioms (Mathlib for ZMod), harness, Exec references. HKDF/encoding injectivity is a hypothesis.",
+        "extractors": [{"name": "skeleton", "out": "Skeletons.lean"}],
+        "extra_modules": ["PatVerif.Proofs.SkelAttesterIndex", "PatVerif.Proofs.SkelIssuer3", "PatVerif.Proofs.Group"],
         "trusted_base": COMMON_TB + ["Mathlib v4.33.0 (ZMod, Field)", "PatVerif/Exec references"],
         "assumptions": ["P-384 group order is prime", "hkdf_inj, enc_inj in distinct_ids"],
-        "extra_modules": ["PatVerif.Proofs.Group"],
         "contradicts": "PatVerif.Props.C08",
     },
     "C03": {
@@ -199,6 +208,8 @@ CONFIG = {
                       "The model (with Lean's own SHA-256) must reproduce the Go request and token bytes for fixed blinds, and the token for random ones.",
         "level_note": "The VOPRF / blind-RSA / HPKE contracts are hypotheses (Scheme.Laws), not proved; type 5 is the per-element statement plus the "
                       "type-5 request codec of C04; type 3 compares token prefix, authenticator length/validity and request size.",
+        "extractors": [{"name": "skeleton", "out": "Skeletons.lean"}],
+        "extra_modules": ["PatVerif.Proofs.SkelEvaluate"],
         "trusted_base": COMMON_TB + ["circl oprf/blindrsa, crypto/rsa as oracles", "PatVerif/Exec SHA-256"],
         "assumptions": ["Scheme.Laws (primitive contract)"],
         "contradicts": "PatVerif.Props.C01.honest_issuance",
@@ -213,6 +224,8 @@ CONFIG = {
                       "hypothesis), finalize_rejects, and the type-5 element-count check are Lean theorems for all responses. Every token any finalize call "
                       "returns in the stream is re-verified under the pinned key and field-compared (direct oracle).",
         "level_note": "DLEQ soundness is a hypothesis; that every bit flip is rejected is observed exhaustively per bit (thorough), not proved of the real primitives.",
+        "extractors": [{"name": "skeleton", "out": "Skeletons.lean"}],
+        "extra_modules": ["PatVerif.Proofs.SkelClients"],
         "trusted_base": COMMON_TB + ["circl oprf client / blindrsa verifier as oracle"],
         "assumptions": ["DLEQ soundness (finalize_sound_voprf)"],
         "contradicts": "PatVerif.Props.C02",
@@ -225,6 +238,8 @@ CONFIG = {
                       "changed_auth_rejected (unconditional), changed_input_rejected (under a named PRF non-collision hypothesis) and authInput_injective "
                       "are Lean theorems; the model recomputes the authenticator input and compares it with the harness's before deciding.",
         "level_note": "The VOPRF is an oracle; 'changes ⇒ reject' for input fields needs PRF collision-freeness (hypothesis).",
+        "extractors": [{"name": "skeleton", "out": "Skeletons.lean"}],
+        "extra_modules": ["PatVerif.Proofs.SkelVerify"],
         "trusted_base": COMMON_TB + ["circl FullEvaluate as oracle"],
         "assumptions": ["PRF non-collision in changed_input_rejected"],
         "contradicts": "PatVerif.Props.C10",
